@@ -285,7 +285,7 @@ class Server(Acceptor):
                               wl=self.wl,
                               timeout=self.tymeout)
             if ca in self.ixes and self.ixes[ca] is not remoter:
-                self.shutdownIx(ca)
+                self.closeIx(ca)  # shutdown and close replaced connection from same ca
             self.ixes[ca] = remoter
 
 
@@ -589,6 +589,8 @@ class ServerTls(Server):
                                  cafilepath=self.cafilepath,
                                 )
 
+            if ca in self.cxes:  # replace handshake in progress from same ca
+                self.cxes[ca].close()
             self.cxes[ca] = remoter
 
 
@@ -601,6 +603,8 @@ class ServerTls(Server):
             cx.handshake()
             if cx.connected:  # handshake completed successfully
                 del self.cxes[ca]
+                if ca in self.ixes and self.ixes[ca] is not cx:
+                    self.closeIx(ca)  # shutdown and close replaced connection from same ca
                 self.ixes[ca] = cx  # add to incoming connections
                 continue
             if cx.aborted:  # handshake completed unsuccessfully
